@@ -236,6 +236,17 @@ def growth_misc(rep):
         rep.clause('X.create_factories', False, key='create()', what='%s: %s' % (type(e).__name__, e), own=False)
     text = '2 2 1\n1: 1 2\n2: (1 2)\n1: 0: 1: 1\n2: 0: 1: 1\n1: 0: 2: 2: 1 2\n'
     path = impl.write_text(text)
+    # the long spelling of -pc / -bf / -twopl / -stab selects the same options as the short one
+    try:
+        sa = ms.Solver(['-f', path, '-na', '3', '-twopl', '-pc', '-stab', '-bf']).options_parser
+        sb = ms.Solver(['-filename', path, '-numagents', '3', '-twosidedpreferencelists', '-projectclosures', '-stability', '-bruteforce']).options_parser
+        same = (sa.instance_options == sb.instance_options and sa.extra_constraints == sb.extra_constraints
+                and sa.solver_options == sb.solver_options and sa.optimisation_options == sb.optimisation_options)
+        rep.clause('X.long_spellings_of_switches', same, key='long switches',
+                   what='short %s %s %s, long %s %s %s' % (sa.instance_options, sa.extra_constraints, sa.solver_options,
+                                                        sb.instance_options, sb.extra_constraints, sb.solver_options), own=False)
+    except BaseException as e:  # noqa
+        rep.clause('X.long_spellings_of_switches', False, key='long switches', what='%s: %s' % (type(e).__name__, e), own=False)
     # msg / threads / timeLimit of solve() reach the back end object of every underlying solve
     from . import observe
     try:
